@@ -102,6 +102,17 @@ MUTANTS = [
     ("idl-duplicates-accepted", "varlink_parser/src/lib.rs", r"if !interface\.error\.is_empty\(\) \{", "if interface.error.is_empty() {", {"C11"}),
     ("listen-drops-upgrade-tail", "varlink/src/server.rs",
      r"unread = if i\.is_some\(\) \{ rest \} else \{ Vec::new\(\) \};", "let _ = rest;", {"C02", "C01"}),
+    ("cli-split-at-first-slash", "varlink-cli/src/main.rs",
+     r"(fn varlink_call\(.*?)if let Some\(del\) = url\.rfind\('/'\) \{", r"\1if let Some(del) = url.find('/') {", {"C20"}),
+    ("cli-method-keeps-slash", "varlink-cli/src/main.rs", r"method = &url\[\(del \+ 1\)\.\.\];", "method = &url[del..];", {"C20"}),
+    ("cli-resolver-asked-for-first-label", "varlink-cli/src/main.rs",
+     r"(fn varlink_call\(.*?)if let Some\(del\) = url\.rfind\('\.'\) \{\s*interface = &url\[0\.\.del\];", r"\1if let Some(del) = url.find('.') {\n                        interface = &url[0..del];", {"C20"}),
+    ("cli-more-error-ignored", "varlink-cli/src/main.rs",
+     r"print_call_ret\(color_mode, cf\.clone\(\), ret, should_colorize, method, &args\)\?", "let _ = print_call_ret(color_mode, cf.clone(), ret, should_colorize, method, &args);", {"C20"}),
+    ("cli-more-stops-after-first", "varlink-cli/src/main.rs",
+     r"(print_call_ret\(color_mode, cf\.clone\(\), ret, should_colorize, method, &args\)\?)", r"\1;\n            break;", {"C20"}),
+    ("cli-error-reply-exit-ok", "varlink-cli/src/main.rs",
+     r"(fn print_call_ret\(.*?)\}\)\?;\s*println!", r"\1}).unwrap_or_default();\n\n    println!", {"C20"}),
 ]
 
 
